@@ -24,6 +24,10 @@ def main():
         try:
             spec = native_specs.WorkflowSpec(copy.deepcopy(D.concretise(d, lang)))
             insp = spec.inspect()
+            if j.get("inspect_only"):       # a definition that cannot be conducted (undefined targets, ...)
+                out.append({"graph": "n/a", "inspect": dg(insp), "trail": [], "errors": "n/a", "output": "n/a",
+                            "seed": os.environ.get("PYTHONHASHSEED", "")})
+                continue
             r = X.Real(d, lang=lang, tok="task")
             graph = r.c.graph.serialize()
             trail = []
